@@ -29,6 +29,8 @@ def evaluate(name, all_checks=False, tier="quick", extra_checks=()):
     d = os.path.join(ROOT, "seeded", name)
     meta = json.load(open(os.path.join(d, "meta.json")))
     pid = meta["property"]
+    if meta.get("superseded"):
+        return {"name": name, "property": pid, "superseded": meta["superseded"]}
     scratch = tempfile.mkdtemp(prefix="seed-%s-" % name, dir="/tmp")
     os.rmdir(scratch)
     out = {"name": name, "property": pid}
@@ -83,6 +85,9 @@ def main():
     for n in names:
         r = evaluate(n, all_checks, tier)
         rows.append(r)
+        if r.get("superseded"):
+            print("%-28s %s superseded: %s" % (n, r["property"], r["superseded"][:120]))
+            continue
         own = r.get("checks", {}).get(r["property"], {})
         mp = os.path.join(ROOT, "seeded", n, "meta.json")
         meta = json.load(open(mp))
@@ -105,7 +110,8 @@ def main():
         sys.stdout.flush()
     with open(os.path.join(ROOT, "seeded", "RESULTS.json"), "w") as f:
         json.dump(rows, f, indent=1)
-    missed = [r["name"] for r in rows if r.get("checks", {}).get(r["property"], {}).get("rc") != 1]
+    missed = [r["name"] for r in rows if not r.get("superseded")
+              and r.get("checks", {}).get(r["property"], {}).get("rc") != 1]
     print("missed by own check:", missed)
     return 0
 
